@@ -16,7 +16,7 @@
 From Coq Require Import NArith List Bool.
 From FF Require Import Lib.Word Gen.Consts_mm_vmm Vmm.Pt Vmm.PtArith Vmm.PtTree Vmm.PtMap Vmm.PtOps Vmm.PtTheorems Vmm.PtInit Vmm.PtPdt Vmm.PtTemp Vmm.PtHist Vmm.PtKernel Vmm.PtRegion.
 From FF Require Import Vmm.Region Vmm.RegionProofs.
-From FF Require Import Gen.Trans_mm_vmm Vmm.PtTrans.
+From FF Require Import Gen.Trans_mm_vmm Vmm.PtTrans Vmm.PtBits.
 Import ListNotations.
 Local Open Scope N_scope.
 
@@ -264,3 +264,15 @@ Theorem C04_pdt_activate :
     (forall f i, ent s' f i = ent s f i) /\ orc s' = orc s /\ flog s' = flog s.
 Proof. exact pdt_activate_spec. Qed.
 Print Assumptions C04_pdt_activate.
+
+(** The quantifier of every C04-C06 theorem ([Inv]) includes states whose present upper-level entries and
+    recursive entries carry bits the translation ignores -- Accessed (which the CPU always sets), Dirty,
+    Global, the available bits 9-11 and 52-62, NX, User, cache control: or-ing any such bits into an entry
+    of an upper-level table or of the active root preserves the invariant and every page's raw leaf entry. *)
+Theorem C04_ignored_bits_neutral :
+  forall s A T own t p i x,
+    Inv s A T own -> (own t = Some p /\ (length p < 3)%nat) \/ t = A ->
+    let s' := wr_st s t i (N.lor (ent s t i) (N.land x safe_bits)) in
+    Inv s' A T own /\ (forall q, hw_idx q 0 <> 511 -> aspace s' T q = aspace s T q).
+Proof. exact or_upper_neutral. Qed.
+Print Assumptions C04_ignored_bits_neutral.
